@@ -247,7 +247,27 @@ class NPShim:
                 return _obj(list(obj))
             except TypeError:
                 pass
+        if has_sym(obj) and isinstance(obj, _np.ndarray) and (a or k.get('dtype') in (float, _np.float64)):
+            return _obj(list(obj))        # a float copy of a series of proxies stays a series of proxies
         return _np.array(obj, *a, **k)
+
+    def asarray(self, obj, *a, **k):
+        if has_sym(obj):
+            return obj if isinstance(obj, SymArray) and not (a or k) else _obj(list(obj))
+        return _np.asarray(obj, *a, **k)
+
+    def asfarray(self, obj, *a, **k):
+        return self.asarray(obj)
+
+    def any(self, a, *x, **k):
+        if not x and not k and any(isinstance(e, SymBool) for e in _np.ravel(a)):
+            return core.sor(*list(_np.ravel(a)))
+        return _np.any(a, *x, **k)
+
+    def all(self, a, *x, **k):
+        if not x and not k and any(isinstance(e, SymBool) for e in _np.ravel(a)):
+            return core.sand(*list(_np.ravel(a)))
+        return _np.all(a, *x, **k)
 
     def max(self, a, *x, **k):
         if isinstance(a, SymReal):
@@ -355,7 +375,15 @@ class NPShim:
     def interp(self, x, xp, fp):
         if not (has_sym(x) or has_sym(xp) or has_sym(fp)):
             return _np.interp(x, xp, fp)
-        # piecewise-linear interpolation, forks on the segment (xp assumed increasing, as numpy requires)
+        # piecewise-linear interpolation, forks on the segment.  numpy's contract: xp must be increasing, "otherwise the results are
+        # nonsense" - when xp holds proxies, the path on which it is NOT increasing gets an unconstrained value (whatever numpy returns
+        # there is not specified), so an obligation that depends on it can only be decided by replaying the real numpy
+        if has_sym(xp):
+            for i in range(1, len(xp)):
+                if not (xp[i - 1] < xp[i]):
+                    fresh = lambda: SymReal(core.ctx().fresh_real('np.interp-outside-its-contract'))
+                    return _obj([fresh() for _ in x]) if isinstance(x, _np.ndarray) else fresh()
+
         def one(xv):
             n = len(xp)
             if xv <= xp[0]:
